@@ -278,6 +278,9 @@ func genCommon(r *Rand, cfg map[string]int64) {
 	cfg["policy"] = int64(r.Intn(rt.NPolicies))
 	cfg["seg"] = int64(r.Intn(rt.NSeg))
 	cfg["debug"] = int64(r.Pick(0, 0, 12)) // DbgLogFcalls|DbgLogPackets
+	// (one-byte segments under msize-sized payloads take a few hundred thousand steps: seen once in a thorough sweep
+	// of C10 as 'step budget of 200000 exhausted', exit 2)
+	cfg["maxsteps"] = 1500000
 }
 
 // pattern fills n bytes that are a function of the arguments, so that a
